@@ -98,3 +98,39 @@ _prop('C14',
                "numpy's bytes->'U' conversion decodes ASCII"],
       assumptions=['the JSON text scanner direct_parse_key is not decided '
                    'beyond the normalisation of looked-up tokens'])
+
+from . import rules_canon, rules_hdf5  # noqa: E402
+
+_prop('C16',
+      rules=[rules_canon.rule_invariant_g,
+             rules_canon.rule_or_canon_consumers, rules_canon.rule_ta_repr,
+             rules_canon.rule_sb_eq],
+      minima={'OR-CANON': 15, 'TA-REPR': 5, 'SB-EQ': 24},
+      rule_texts=rules_canon.RULE_TEXT,
+      trusted=['scipy: format conversion / astype / copy / stacking / fancy '
+               'indexing / transposition never create stored zeros; '
+               'eliminate_zeros and sort_indices preserve values; astype '
+               'copies by default; the result of a sparse comparison holds '
+               'no stored False'],
+      assumptions=[])
+
+_prop('C04',
+      rules=[rules_hdf5.rule_ag_spec, rules_hdf5.rule_h5_writer_axes,
+             rules_hdf5.rule_h5_nnz],
+      minima={'AG-SPEC': 48, 'AX-MATOP': 8, 'AX-IDAPI': 4, 'OR-CANON': 9,
+              'AX-SHAPE': 1},
+      rule_texts=rules_hdf5.RULE_TEXT,
+      trusted=['scipy asformat contract', 'h5py create_dataset semantics'],
+      assumptions=[])
+
+_prop('C01',
+      rules=[rules_hdf5.rule_ag_h5keys, rules_hdf5.rule_ag_reg,
+             rules_subset.rule_ta_codec, rules_hdf5.rule_h5_reader_axes,
+             rules_hdf5.rule_h5_fwd],
+      minima={'AG-H5KEYS': 18, 'AG-REG': 10, 'AG-SENT': 7, 'TA-CODEC': 12,
+              'AX-MATOP': 5, 'AX-FWD': 4},
+      rule_texts=dict(rules_hdf5.RULE_TEXT,
+                      **{'TA-CODEC': rules_subset.RULE_TEXT['TA-CODEC']}),
+      trusted=['h5py: vlen-str datasets read as bytes, str attributes '
+               'stored/read as UTF-8'],
+      assumptions=[])
